@@ -119,6 +119,11 @@ def run(ctx: Ctx) -> None:
     rng = ctx.rng
     n = 2500 if quick else 60000
     mds = [(gens.make_md(c), c) for c in gens.FIXED_CFGS]
+    # documents at scale (the table rule counts auto-completed cells; seeded change C02m drops `td_close` beyond upstream's limit)
+    mdt = MarkdownIt("commonmark").enable("table")
+    for name, src in gens.scale_docs(quick):
+        ctx.count(("scale", name), nontrivial=True)
+        check(ctx, mdt, src, {"preset": "commonmark", "options": {}, "enable": ["table"], "disable": []})
     for i, src in enumerate(gens.doc_stream(rng, n, 7)):
         if rng.random() < 0.3:
             cfg = gens.rand_cfg(rng)
